@@ -1,7 +1,8 @@
 (* C13 - a non-zero score is a promise the guesser keeps.  Property theorems
    only. *)
 From Coq Require Import List ZArith NArith Bool QArith.
-From Pcfg Require Import Str Multiword Detect Segment SegCorr Scorer ScorerCorr ScorerProofs ScorerInst DetectProofsInst.
+From Pcfg Require Import ProbAlg Next NextSpec NextProofs QProb Expand.
+From Pcfg Require Import Str Multiword Detect Segment SegCorr Scorer ScorerCorr ScorerProofs ScorerGuesser ScorerInst DetectProofsInst.
 From PcfgGen Require Import Consts_gen Unicode_gen.
 Import ListNotations.
 Open Scope Z_scope.
@@ -16,18 +17,34 @@ Proof. exact side_scorer_min_len. Qed.
 Theorem C13_source_rebuild_check : scorer_rebuild_check = true.
 Proof. exact side_rebuild_check. Qed.
 
-(* Over exact rationals, for every ruleset (the tables the scorer loaded), every
-   state m of its multi-word detector and EVERY non-empty string: a non-zero
-   score p means that some base structure of the ruleset and one terminal per
-   position (for an alpha variable a word and a capitalisation mask, applied
-   with the interpreter's upper()) spell exactly s with probability
-   base * product = p.
-   PARTIAL with respect to DESIGN's statement: the guesser's side is the
-   relation c_generates over the same tables (its agreement with the real
-   PcfgGrammar enumeration is a correspondence obligation of this check),
-   not `all_preterminals` of Next.v; full statement:
-     In it (all_preterminals (guesser_view rs)) /\ In s (denote (pt it)) /\ prob_Q it = p. *)
-Theorem C13_promise_Q_partial : forall rs m s cat p, s <> [] ->
+(* Over exact rationals (QProb), for every ruleset (the tables the scorer
+   loaded), every state m of its multi-word detector and EVERY non-empty
+   string: a non-zero score p means that a pre-terminal `it` of the guesser's
+   grammar for these tables (guesser_view: Next-style tables of group
+   probabilities, adjacent values of equal probability grouped as the
+   guesser's loader does, a capitalisation variable after every alpha
+   variable) has s among its guesses (Expand.denote of its value groups,
+   masks applied with the interpreter's upper()) and has probability p.
+   The agreement of guesser_view with what the real PcfgGrammar loads from the
+   same files is a correspondence obligation of every run. *)
+Theorem C13_promise_Q : forall rs m s cat p, s <> [] ->
+  score Q Qmult 0%Q 1%Q scorer_rebuild_check c_upper (parse_s m) rs s = Some (cat, p) -> ~ (p == 0)%Q ->
+  exists it : item QProb, In it (all_preterminals (guesser_view rs)) /\
+                          In s (denote c_upper (segs_of rs it)) /\ (iprob it == p)%Q.
+Proof. exact promise_preterminal_c. Qed.
+
+(* with C02: that pre-terminal is emitted by the guesser's run, for every
+   well-formed view and every admissible priority queue *)
+Theorem C13_promise_emitted : forall rs m s cat p, s <> [] ->
+  score Q Qmult 0%Q 1%Q scorer_rebuild_check c_upper (parse_s m) rs s = Some (cat, p) -> ~ (p == 0)%Q ->
+  wf (guesser_view rs) -> forall pop, pop_ok_okb pop ->
+  exists it : item QProb,
+    In it (emitted (run pop (guesser_view rs) (total (guesser_view rs)) (start (guesser_view rs)))) /\
+    In s (denote c_upper (segs_of rs it)) /\ (iprob it == p)%Q.
+Proof. exact promise_emitted_c. Qed.
+
+(* the same promise as a derivation: a base structure and one terminal per position *)
+Theorem C13_promise_derivation : forall rs m s cat p, s <> [] ->
   score Q Qmult 0%Q 1%Q scorer_rebuild_check c_upper (parse_s m) rs s = Some (cat, p) -> ~ (p == 0)%Q ->
   c_generates rs s p.
 Proof. exact promise_c. Qed.
@@ -78,6 +95,7 @@ Example C13_demo :
   c_generates rs_sharp w_sharp_lower (1 * 1 * (1#2) * 1)%Q.
 Proof. exact demo_promise. Qed.
 
-Print Assumptions C13_promise_Q_partial.
+Print Assumptions C13_promise_Q.
+Print Assumptions C13_promise_emitted.
 Print Assumptions C13_missing_is_zero.
 Print Assumptions C13_refuted_case_sharp_s.
